@@ -425,7 +425,7 @@ func genHistory(t *rapid.T) *History {
 	}
 	maxSteps := 5
 	if vk.Thorough() {
-		maxSteps = 10
+		maxSteps = 8
 	}
 	n := rapid.IntRange(4, maxSteps).Draw(t, "nsteps")
 	nextBlock := 0
@@ -881,7 +881,7 @@ func TestCrashEnumeration(t *testing.T) {
 			}
 			fmt.Fprintf(&sigb, "/%d", nOh)
 			seenRecovery[sigb.String()]++
-			if lim := map[bool]int{false: 1, true: 3}[vk.Thorough()]; seenRecovery[sigb.String()] > lim {
+			if lim := map[bool]int{false: 1, true: 2}[vk.Thorough()]; seenRecovery[sigb.String()] > lim {
 				ohits = nil
 			}
 			for m := range ohits {
